@@ -2,6 +2,7 @@
 
 // C07 harness: any string expressible in expression syntax; bad expressions fail cleanly.
 //
+// crash <id> timeout: …  a parse did not return within the per-case limits (see guarded)
 // case <id> kind=expr  text=<hex> reok=<hexlist> rebad=<hexlist> sp=<runes> tag=…
 // case <id> kind=quote s=<hex> pr=<runes> tag=quote
 // case <id> kind=unq   text=<hex> tag=unquote
@@ -12,9 +13,11 @@ import (
 	"fmt"
 	"os"
 	"regexp"
+	"runtime"
 	"sort"
 	"strconv"
 	"strings"
+	"syscall"
 	"time"
 	"unicode"
 	"unicode/utf8"
@@ -25,7 +28,7 @@ import (
 	"golang.org/x/perf/internal/verifh/hx"
 )
 
-var alphabet = []byte{'"', '\\', '(', ')', ':', '@', ',', '-', '*', '/', '[', ']', ' ', '\t', 'A', 'N', 'D', 'O', 'R', 'a', 0x80, 0xC3, 0xA9}
+var alphabet = []byte{'"', '\\', '(', ')', ':', '@', ',', '-', '*', '/', '[', ']', ' ', '\t', '\v', '\f', 'A', 'N', 'D', 'O', 'R', 'a', 0x80, 0xC3, 0xA9}
 
 // ---------------------------------------------------------------- canonical observables
 
@@ -244,32 +247,79 @@ var (
 
 func mine() bool {
 	id++
-	return (id-1)%nshards == shard
+	return (id-1)%nshards == shard && id-1 >= resume
 }
 
-// guarded runs f with panic recovery and a wall limit; a hit prints a crash line.
-func guarded(cid int, f func()) {
-	done := make(chan string, 1)
+// Per-case limits: a parse that neither returns nor fails is a violation of the property
+// ("never a panic or a hang").  The case body runs in its own goroutine and writes its lines into
+// a private buffer; the main goroutine waits at most caseLimit of wall-clock time and also gives up
+// when the heap runs away (a hanging parse typically allocates without bound).  A stuck goroutine
+// cannot be killed, so after printing the crash line the harness re-executes itself and resumes at
+// the next case id (generation is deterministic, earlier ids are skipped without running).
+const (
+	caseLimit   = 2 * time.Second
+	heapLimit   = 1536 << 20 // bytes
+	maxTimeouts = 20         // re-executions per shard; then the shard stops
+)
+
+var resume int // first case id to run (VERIF_C07_RESUME)
+
+func guarded(cid int, f func(w *strings.Builder)) {
+	done := make(chan [2]string, 1)
 	go func() {
+		var w strings.Builder
 		defer func() {
 			if r := recover(); r != nil {
-				done <- fmt.Sprintf("panic:%s", hx.HexS(fmt.Sprint(r)))
+				done <- [2]string{"", fmt.Sprintf("panic:%s", hx.HexS(fmt.Sprint(r)))}
 				return
 			}
-			done <- ""
+			done <- [2]string{w.String(), ""}
 		}()
-		f()
+		f(&w)
 	}()
-	t := time.NewTimer(10 * time.Second)
-	defer t.Stop()
-	select {
-	case msg := <-done:
-		if msg != "" {
-			hx.Printf("crash %d %s\n", cid, msg)
+	start := time.Now()
+	tick := time.NewTicker(20 * time.Millisecond)
+	defer tick.Stop()
+	why := ""
+wait:
+	for {
+		select {
+		case out := <-done:
+			if out[1] != "" {
+				hx.Printf("crash %d %s\n", cid, out[1])
+			} else {
+				hx.Out.WriteString(out[0])
+			}
+			return
+		case <-tick.C:
+			if time.Since(start) >= caseLimit {
+				why = fmt.Sprintf("timeout: no result within %s (hang)", caseLimit)
+				break wait
+			}
+			var ms runtime.MemStats
+			runtime.ReadMemStats(&ms)
+			if ms.HeapAlloc > heapLimit {
+				why = fmt.Sprintf("timeout: heap grew beyond %d MiB after %s without a result (runaway allocation, hang)", heapLimit>>20, time.Since(start).Round(time.Millisecond))
+				break wait
+			}
 		}
-	case <-t.C:
-		hx.Printf("crash %d timeout\n", cid)
 	}
+	hx.Printf("crash %d %s\n", cid, why)
+	hx.Flush()
+	nt, _ := strconv.Atoi(os.Getenv("VERIF_C07_TIMEOUTS"))
+	nt++
+	if nt >= maxTimeouts {
+		fmt.Fprintf(os.Stderr, "c07: %d cases hung in this shard; stopping the shard at case %d\n", nt, cid)
+		os.Exit(0)
+	}
+	os.Setenv("VERIF_C07_TIMEOUTS", strconv.Itoa(nt))
+	os.Setenv("VERIF_C07_RESUME", strconv.Itoa(cid+1))
+	exe, err := os.Executable()
+	if err == nil {
+		err = syscall.Exec(exe, os.Args, os.Environ())
+	}
+	fmt.Fprintf(os.Stderr, "c07: cannot re-execute after a hang: %v\n", err)
+	os.Exit(0)
 }
 
 func exprCase(text string, tag string) {
@@ -280,10 +330,10 @@ func exprCase(text string, tag string) {
 	reok, rebad, sp := oracle(text)
 	hx.Printf("case %d kind=expr text=%s reok=%s rebad=%s sp=%s tag=%s\n", cid, hx.HexS(text),
 		hx.HexListS(reok), hx.HexListS(rebad), sp, tag)
-	guarded(cid, func() {
+	guarded(cid, func(w *strings.Builder) {
 		o := runExpr(text)
-		hx.Printf("obs %d pf=%s nf=%s pp=%s np=%s\n", cid, o.pf, o.nf, o.pp, o.np)
-		hx.Printf("sobs %d n=%d f=%s p=%s\n", cid, len(text), sOutcome(o.nfErr), sOutcome(o.npErr))
+		fmt.Fprintf(w, "obs %d pf=%s nf=%s pp=%s np=%s\n", cid, o.pf, o.nf, o.pp, o.np)
+		fmt.Fprintf(w, "sobs %d n=%d f=%s p=%s\n", cid, len(text), sOutcome(o.nfErr), sOutcome(o.npErr))
 	})
 }
 
@@ -344,13 +394,13 @@ func quoteCase(s string, r *hx.Rand) {
 			}
 		}
 		hx.Printf("case %d kind=quote s=%s other=%s pr=%s tag=quote\n", cid, hx.HexS(s), hx.HexS(other), runeList(prm))
-		guarded(cid, func() {
+		guarded(cid, func(w *strings.Builder) {
 			u, uerr := strconv.Unquote(q)
 			uq := "err"
 			if uerr == nil {
 				uq = "ok:" + hx.HexS(u)
 			}
-			hx.Printf("obs %d gq=%s uq=%s\n", cid, hx.HexS(q), uq)
+			fmt.Fprintf(w, "obs %d gq=%s uq=%s\n", cid, hx.HexS(q), uq)
 			// value position
 			val := "err"
 			if f, err := benchproc.NewFilter("k:" + q); err == nil {
@@ -387,7 +437,7 @@ func quoteCase(s string, r *hx.Rand) {
 			if _, err := pp.Parse("k@("+q+")", star); err == nil {
 				fx = "ok:" + matchAll(star, mkRes("X", "k", s)) + matchAll(star, mkRes("X", "k", other))
 			}
-			hx.Printf("sobs %d val=%s full=%s key=%s pk=%s fx=%s\n", cid, val, full, key, pk, fx)
+			fmt.Fprintf(w, "sobs %d val=%s full=%s key=%s pk=%s fx=%s\n", cid, val, full, key, pk, fx)
 		})
 	}
 	exprCase("k:"+q, "quoted")
@@ -403,7 +453,7 @@ func bareCase(w string) {
 		cid := id - 1
 		_, _, sp := oracle(w)
 		hx.Printf("case %d kind=bare w=%s sp=%s tag=bare\n", cid, hx.HexS(w), sp)
-		guarded(cid, func() {
+		guarded(cid, func(w *strings.Builder) {
 			val, key, pk := "err", "skip", "skip"
 			if f, err := benchproc.NewFilter("k:" + w); err == nil {
 				val = "ok:" + matchAll(f, mkRes("X", "k", w)) + matchAll(f, mkRes("X", "k", w+"x"))
@@ -420,7 +470,7 @@ func bareCase(w string) {
 					pk = "ok:" + hx.HexS(fld.Name) + ":" + hx.HexS(p.Project(mkRes("X", w, "v")).Get(fld))
 				}
 			}
-			hx.Printf("sobs %d val=%s key=%s pk=%s\n", cid, val, key, pk)
+			fmt.Fprintf(w, "sobs %d val=%s key=%s pk=%s\n", cid, val, key, pk)
 		})
 	}
 	exprCase("k:"+w, "bare")
@@ -556,6 +606,7 @@ func main() {
 	defer hx.Flush()
 	shard, _ = strconv.Atoi(getenv("VERIF_SHARD", "0"))
 	nshards, _ = strconv.Atoi(getenv("VERIF_NSHARDS", "1"))
+	resume, _ = strconv.Atoi(getenv("VERIF_C07_RESUME", "0"))
 	if nshards < 1 {
 		nshards = 1
 	}
